@@ -65,9 +65,19 @@ fn explained(causes: &[Cause], e: &RErr) -> Result<bool, Fail> {
 }
 
 fn check_case_full(c: &Case) -> Result<(Obs, Summary), Fail> {
-    let p = plan(c);
-    let w = run::build_world(c, &p);
-    let out = run::run(c, &p, &w)?;
+    let mut p = plan(c, false);
+    let mut w = run::build_world(c, &p);
+    let out = match run::run(c, &p, &w)? {
+        Some(o) => o,
+        None => {
+            p = plan(c, true);
+            w = run::build_world(c, &p);
+            match run::run(c, &p, &w)? {
+                Some(o) => o,
+                None => vfail!("harness-replan", "second plan asked for a re-plan"),
+            }
+        }
+    };
 
     let rejected: usize = p.exp.iter().map(|v| v.iter().filter(|e| !e.is_empty()).count()).sum();
     let mut obs = Obs::new(false)
